@@ -415,6 +415,11 @@ pub struct Shared {
 impl Shared {
     /// record the names of the words behind a handle
     pub fn bind(&mut self, h: &H, gid: usize, stream: usize) {
+        self.bind_tok(h, gid, stream, gid)
+    }
+
+    /// `tokid`: the id under which the handle's memory token is known
+    pub fn bind_tok(&mut self, h: &H, gid: usize, stream: usize, tokid: usize) {
         let l = h.layout();
         let n = &mut self.names;
         n.entry(l.head).or_insert("head".into());
@@ -435,7 +440,7 @@ impl Shared {
             n.entry(l.refs + i * l.refs_stride + l.refcnt_off).or_insert(format!("ref.{}", i));
         }
         if l.token != 0 {
-            n.insert(l.token, format!("tok.{}", gid));
+            n.insert(l.token, format!("tok.{}", tokid));
         }
         if l.pos != 0 {
             n.insert(l.pos, format!("pos.{}", stream));
@@ -664,7 +669,12 @@ impl Ctx {
                 pre_gid = Some(self.alloc_gid());
                 pre_stream = Some(self.new_stream());
             }
-            Op::IntoMulti(_) if hkind == "BFU" || hkind == "MFU" => pre_stream = Some(self.new_stream()),
+            Op::IntoMulti(_) if hkind == "BFU" || hkind == "MFU" => {
+                pre_stream = Some(self.new_stream());
+                let mut g = self.shared.lock().unwrap();
+                g.next_ghost += 1;
+                pre_gid = Some(1_000_000 + g.next_ghost);
+            }
             // the futures into_single clones the receiver and drops the old handle: the clone gets an id
             Op::IntoSingle(_) if hkind == "BFR" || hkind == "MFR" => {
                 // ghost id (never a real handle): does not disturb the numbering of handles
@@ -943,7 +953,7 @@ impl Ctx {
                             return self.bad(t0);
                         }
                     };
-                    self.shared.lock().unwrap().bind(&nh, gid, stream);
+                    self.shared.lock().unwrap().bind_tok(&nh, gid, stream, pre_gid.unwrap_or(gid));
                     let slot = &mut self.slots[hidx];
                     slot.h = Some(nh);
                     t.into()
@@ -963,7 +973,7 @@ impl Ctx {
                         H::BFU(r) => {
                             let n = H::BFR(r.into_multi());
                             let st = pre_stream.unwrap();
-                            self.shared.lock().unwrap().bind(&n, gid, st);
+                            self.shared.lock().unwrap().bind_tok(&n, gid, st, pre_gid.unwrap_or(gid));
                             let slot = &mut self.slots[hidx];
                             slot.h = Some(n);
                             slot.stream = st;
@@ -972,7 +982,7 @@ impl Ctx {
                         H::MFU(r) => {
                             let n = H::MFR(r.into_multi());
                             let st = pre_stream.unwrap();
-                            self.shared.lock().unwrap().bind(&n, gid, st);
+                            self.shared.lock().unwrap().bind_tok(&n, gid, st, pre_gid.unwrap_or(gid));
                             let slot = &mut self.slots[hidx];
                             slot.h = Some(n);
                             slot.stream = st;
